@@ -110,8 +110,16 @@ fn snapshot(s: &mut Session, rx: &HashMap<usize, Option<usize>>, bc: &mut tokio:
     )
 }
 
+// which piece of the harness torrent a 20-byte hash belongs to (see `torrent`): the manager's replies carry the hash the
+// task will verify against / load the piece file by, and it must be the hash of the piece index in the same reply
+fn hash_idx(h: &[u8; 20]) -> String {
+    match std::str::from_utf8(&h[10..]).ok().and_then(|t| t.parse::<usize>().ok()) {
+        Some(i) if h[..10].iter().all(|c| *c == b'A' + (i % 26) as u8) => i.to_string(),
+        _ => "x".to_string(),
+    }
+}
 fn rq(r: &ReqData) -> String {
-    format!("{}/{}", r.piece_index, r.piece_length)
+    format!("{}/{}/{}", r.piece_index, r.piece_length, hash_idx(&r.piece_hash))
 }
 
 async fn exec(s: &mut Session, rx: &mut HashMap<usize, Option<usize>>, pend: &mut HashMap<usize, bool>, prod: bool, op: &[&str]) -> String {
@@ -223,7 +231,7 @@ async fn exec(s: &mut Session, rx: &mut HashMap<usize, Option<usize>>, pend: &mu
             let (tx, mut rxc) = oneshot::channel();
             res!(s.verif_handle(PeerCmd::RecvRequest { addr: addr_of(a(1)), piece_index: a(2), resp_ch: tx }).await);
             match rxc.try_recv() {
-                Ok(RequestCmd::LoadAndSendPiece { piece_index, .. }) => format!("Q_LOAD {}", piece_index),
+                Ok(RequestCmd::LoadAndSendPiece { piece_index, piece_hash }) => format!("Q_LOAD {} {}", piece_index, hash_idx(&piece_hash)),
                 Ok(RequestCmd::Ignore) => "Q_IGNORE".into(),
                 Err(_) => "NOREPLY".into(),
             }
